@@ -169,6 +169,37 @@ func driveConc(args []string) int {
 		if total != n*len(once) {
 			s.bad("output of concurrent executions of a shared Prog is not n times the output of one", "shared-prog-output", []byte(fmt.Sprintf("%q", src)), fmt.Sprintf("%d bytes, expected %d", total, n*len(once)), true)
 		}
+		// the same with the trace and the statistics on: every execution lists its own instructions (positions included)
+		w.mu.Lock()
+		w.b.Reset()
+		w.mu.Unlock()
+		bcl.Execute(p, bcl.OptTrace(true), bcl.OptStats(true))
+		w.mu.Lock()
+		onceT := w.b.Len()
+		w.b.Reset()
+		w.mu.Unlock()
+		for i := 0; i < n; i++ {
+			wg.Add(1)
+			go func(i int) {
+				defer wg.Done()
+				r, b, e := bcl.Execute(p, bcl.OptTrace(true), bcl.OptStats(true))
+				outs[i] = fmt.Sprintf("err=%v res=%s bind=%s", e, canonBlocks(r), canonBinding(b))
+			}(i)
+		}
+		wg.Wait()
+		s.Cases += n
+		s.Judged += n
+		for i := range outs {
+			if outs[i] != ref {
+				s.bad("executing one shared Prog from several goroutines with the trace on changed a result", "shared-prog", []byte(fmt.Sprintf("%q", src)), map[string]string{"alone": ref, "concurrent": outs[i]}, true)
+			}
+		}
+		w.mu.Lock()
+		total = w.b.Len()
+		w.mu.Unlock()
+		if total != n*onceT {
+			s.bad("trace output of concurrent executions of a shared Prog is not n times the trace of one", "shared-prog-trace", []byte(fmt.Sprintf("%q", src)), fmt.Sprintf("%d bytes, expected %d", total, n*onceT), true)
+		}
 		if len(s.Samples) < 2 {
 			s.Samples = append(s.Samples, []byte(fmt.Sprintf("%q", string(src))))
 		}
